@@ -1,7 +1,8 @@
 SPECIFICATION Spec
-CONSTANTS MaxN = 3
+CONSTANTS MaxN = 4
 Coords <- C3
-CtrlCoords <- C2
+CtrlCoords <- C3
+Letters <- LettersDeg
 GuardZ = TRUE
 GuardDeg = FALSE
 GuardZeroL = TRUE
